@@ -1,6 +1,7 @@
 package checks
 
 import (
+	"bytes"
 	"errors"
 	"fmt"
 	"sort"
@@ -220,11 +221,11 @@ func c13Components(c psatoken.IClaims, m *MClaims) string {
 
 func TestC13_ClaimErrors(t *testing.T) {
 	st := NewStats("C13", "TestC13_ClaimErrors", "rapid: each claim / component field x each way of being wrong, alone (exact class) and combined (class of some offending claim), on claims-sets obtained as struct literals, via the per-type CBOR unmarshal, and via setters called with invalid values; errors.Is against the five sentinels must hold for the expected class and for no other. Non-trivial = the error travels through >= 1 wrapping layer (component inside list, getter inside Validate); distinct = (route, class vector)")
-	st.Require = []string{"route=literal", "route=unmarshal", "route=setter", "single", "combined", "component-defect", "foreign-component"}
+	st.Require = []string{"route=literal", "route=unmarshal", "route=setter", "single", "combined", "component-defect", "foreign-component", "degraded-in-place", "null-component-entry"}
 	defer st.Flush(t)
 	rapid.Check(t, func(t *rapid.T) {
 		p := drawProf(t)
-		route := rapid.SampledFrom([]string{"literal", "literal", "unmarshal", "setter"}).Draw(t, "route")
+		route := rapid.SampledFrom([]string{"literal", "literal", "unmarshal", "unmarshal", "setter", "degraded"}).Draw(t, "route")
 		if route == "setter" {
 			c, err := psatoken.NewClaims(p.Name())
 			if err != nil {
@@ -317,6 +318,64 @@ func TestC13_ClaimErrors(t *testing.T) {
 			st.Case("", "route=setter")
 			return
 		}
+		if route == "degraded" {
+			// a claims-set built through the setters, validated, and THEN made
+			// invalid by its holder through a component object it shares with
+			// the claims-set (the one the getter hands out)
+			mv := GenValid(t, p, true)
+			if len(mv.Comps) == 0 {
+				st.Case("", "route=degraded")
+				return
+			}
+			c, err := mv.BuildSetters()
+			if err != nil {
+				t.Fatalf("valid set cannot be built through setters: %v", err)
+			}
+			if err := c.Validate(); err != nil {
+				t.Fatalf("C13: valid set built through setters does not validate: %v", err)
+			}
+			scs, err := c.GetSoftwareComponents()
+			if err != nil || len(scs) != len(mv.Comps) {
+				t.Fatalf("C13: components of a valid set: %d, %v", len(scs), err)
+			}
+			i := rapid.IntRange(0, len(scs)-1).Draw(t, "degrade.idx")
+			h, ok := scs[i].(*psatoken.SwComponent)
+			if !ok {
+				st.Case("", "route=degraded")
+				return
+			}
+			mm := mv.Clone()
+			short := drawBytes(t, rapid.SampledFrom([]int{0, 7, 31, 33, 65}).Draw(t, "degrade.len"), "degrade.bytes")
+			defect := rapid.SampledFrom([]string{"signer-nil", "signer-bad", "value-nil", "value-bad"}).Draw(t, "degrade.kind")
+			switch defect {
+			case "signer-nil":
+				h.SignerID, mm.Comps[i].Signer = nil, nil
+			case "signer-bad":
+				h.SignerID, mm.Comps[i].Signer = cloneBytesPtr(&short), cloneBytesPtr(&short)
+			case "value-nil":
+				h.MeasurementValue, mm.Comps[i].Value = nil, nil
+			default:
+				h.MeasurementValue, mm.Comps[i].Value = cloneBytesPtr(&short), cloneBytesPtr(&short)
+			}
+			// does the claims-set hold what its holder changed? The plain
+			// (non-validating) encoder tells, independently of any getter
+			lit, ok := mm.BuildLiteral()
+			if !ok {
+				st.Case("", "route=degraded")
+				return
+			}
+			b1, e1 := psatoken.EncodeClaimsToCBOR(c)
+			b2, e2 := psatoken.EncodeClaimsToCBOR(lit)
+			if e1 != nil || e2 != nil || !bytes.Equal(b1, b2) {
+				st.Case("", "route=degraded", "no-verdict:component-not-shared")
+				return
+			}
+			if msg := c13Claims(c, mm); msg != "" {
+				t.Fatalf("C13 violated (claims-set built through setters and validated; then component %d changed in place by its holder: %s): %s\n [%s]", i, defect, msg, mm.ClassVector())
+			}
+			st.Case("degraded|"+defect+"|"+mm.ClassVector(), "route=degraded", "degraded-in-place", "component-defect")
+			return
+		}
 		m := GenAny(t, p)
 		var c psatoken.IClaims
 		if route == "literal" {
@@ -368,6 +427,12 @@ func TestC13_ClaimErrors(t *testing.T) {
 		for _, sc := range m.Comps {
 			if compClass(sc) != EOK {
 				cls = append(cls, "component-defect")
+				break
+			}
+		}
+		for _, sc := range m.Comps {
+			if sc != nil && sc.NilEntry {
+				cls = append(cls, "null-component-entry")
 				break
 			}
 		}
